@@ -368,3 +368,71 @@ def disjuncts(test: ast.AST) -> List[ast.AST]:
             out.extend(disjuncts(v))
         return out
     return [test]
+
+
+# ---------------------------------------------------------------------------- pattern matching
+_PAT_CACHE: Dict[str, ast.AST] = {}
+
+
+def _pat(pattern: str) -> ast.AST:
+    if pattern not in _PAT_CACHE:
+        _PAT_CACHE[pattern] = ast.parse(pattern.replace("$", "__mv_"), mode="eval").body
+    return _PAT_CACHE[pattern]
+
+
+def pmatch(pattern: str, node: Optional[ast.AST], binds: Optional[Dict[str, str]] = None) -> Optional[Dict[str, str]]:
+    """Structural match of an expression against a pattern with metavariables.
+
+    ``$x`` in the pattern matches any expression; a metavariable that occurs twice (or is
+    pre-bound in `binds`) must match expressions with the same normalised text.  Everything
+    else (operators, attribute names, constants, keyword names, call shapes) must be equal.
+    Returns the bindings {name: normalised source} or None.  Local variable names in the
+    analysed code thus never have to be spelled out in a rule.
+    """
+    if node is None:
+        return None
+    b = dict(binds or {})
+    return b if _pm(_pat(pattern), node, b) else None
+
+
+def _pm(p: ast.AST, n: ast.AST, b: Dict[str, str]) -> bool:
+    if isinstance(p, ast.Name) and p.id.startswith("__mv_"):
+        key = p.id[5:]
+        s = src(n)
+        if key in b:
+            return b[key] == s
+        b[key] = s
+        return True
+    if type(p) is not type(n):
+        return False
+    for field_name, pv in ast.iter_fields(p):
+        if field_name in ("ctx", "lineno", "col_offset", "end_lineno", "end_col_offset", "type_comment", "kind"):
+            continue
+        nv = getattr(n, field_name, None)
+        if isinstance(pv, ast.AST):
+            if not isinstance(nv, ast.AST) or not _pm(pv, nv, b):
+                return False
+        elif isinstance(pv, list):
+            if not isinstance(nv, list) or len(pv) != len(nv):
+                return False
+            for x, y in zip(pv, nv):
+                if isinstance(x, ast.AST):
+                    if not isinstance(y, ast.AST) or not _pm(x, y, b):
+                        return False
+                elif x != y:
+                    return False
+        else:
+            if pv != nv:
+                return False
+    return True
+
+
+def find_match(pattern: str, root: ast.AST, binds: Optional[Dict[str, str]] = None) -> List[Tuple[ast.AST, Dict[str, str]]]:
+    """All sub-expressions of root (no nested defs) that match the pattern."""
+    out = []
+    for n in walk_no_nested(root):
+        if isinstance(n, ast.expr):
+            m = pmatch(pattern, n, binds)
+            if m is not None:
+                out.append((n, m))
+    return out
